@@ -207,6 +207,11 @@ func (s *PfcpServer) receiver(wg *sync.WaitGroup) {
 		}
 
 		s.log.Tracef("receiver reads message(len=%d)", n)
+		if n == 0 {
+			// an empty datagram is not a message; an empty ReceivePacket is
+			// what tells the main loop that the receiver has stopped
+			continue
+		}
 		msgBuf := make([]byte, n)
 		copy(msgBuf, buf)
 		s.rcvCh <- ReceivePacket{
